@@ -707,7 +707,9 @@ func (c *Check) fixedC13() []*plan.Plan {
 		}
 	}
 	// element names in their degenerate forms, pages without visible text, pagers inside wrappers: every log flag at once
-	probes := append(append(gen.TagProbeDocs(), gen.DegenerateDocs(24)...), gen.WrappedPagerDocs()...)
+	probes := append(append(append(gen.TagProbeDocs(), gen.DegenerateDocs(24)...), gen.WrappedPagerDocs()...), gen.TableShapePages()...)
+	probes = append(probes, gen.CaseTwinDocs()...)
+	probes = append(probes, gen.AttrValueTruncationDocs()...)
 	for di, d := range probes {
 		c.noteDoc(d)
 		out = append(out, c.c13Variant(run, uint64(5000+di), d, d.URL, uint(di%2), di%5 == 4, 31, []string{"null", "file"}[di%2], nil, "Apply"))
@@ -1116,6 +1118,9 @@ func (c *Check) probePlans(run *int) []*plan.Plan {
 	docs = append(docs, gen.TagProbeDocs()...)
 	docs = append(docs, gen.DegenerateDocs(24)...)
 	docs = append(docs, gen.WrappedPagerDocs()...)
+	docs = append(docs, gen.TableShapePages()...)
+	docs = append(docs, gen.CaseTwinDocs()...)
+	docs = append(docs, gen.AttrValueTruncationDocs()...)
 	for di := 0; di < len(docs); di += 3 {
 		p := c.newPlan("probes", *run, uint64(di), c.kernelName())
 		*run++
@@ -1321,7 +1326,9 @@ func (c *Check) fixedC12() []*plan.Plan {
 	// the scheduler's hand-over is invisible to the race detector, so two unsynchronised accesses to the
 	// same library variable by the two callers are reported whenever they happen during the plan
 	{
-		probes := append(append(append(gen.AttrProbeDocs(), gen.TagProbeDocs()...), gen.DegenerateDocs(24)...), gen.WrappedPagerDocs()...)
+		probes := append(append(append(append(gen.AttrProbeDocs(), gen.TagProbeDocs()...), gen.DegenerateDocs(24)...), gen.WrappedPagerDocs()...), gen.TableShapePages()...)
+		probes = append(probes, gen.CaseTwinDocs()...)
+		probes = append(probes, gen.AttrValueTruncationDocs()...)
 		per := 40
 		if c.tier == "thorough" {
 			per = 12
